@@ -5,6 +5,36 @@
 #include "crypto_dh_group14.h"
 #include "crypto_entropy.h"
 
+/* OpenSSL's allocator: the k-th allocation made while `armed` fails (walks every error path of blinded_modexp) */
+#include <openssl/crypto.h>
+static long o_count, o_failat;
+static int o_armed;
+static void *
+o_malloc(size_t n, const char * f, int l)
+{
+
+	(void)f; (void)l;
+	if (o_armed && ++o_count == o_failat)
+		return (NULL);
+	return (malloc(n));
+}
+static void *
+o_realloc(void * p, size_t n, const char * f, int l)
+{
+
+	(void)f; (void)l;
+	if (o_armed && ++o_count == o_failat)
+		return (NULL);
+	return (realloc(p, n));
+}
+static void
+o_free(void * p, const char * f, int l)
+{
+
+	(void)f; (void)l;
+	free(p);
+}
+
 /* scripted entropy: up to 4 queued answers; fail = 1 means return -1 */
 static struct { uint8_t buf[64]; size_t len; int fail; } ent[4];
 static int ent_n, ent_pos;
@@ -62,9 +92,11 @@ main(void)
 	uint8_t * a, * b;
 	size_t alen, blen;
 
+	CRYPTO_set_mem_functions(o_malloc, o_realloc, o_free);
 	setvbuf(stdout, NULL, _IOFBF, 1 << 16);
 	while (hc_next()) {
 		ent_n = ent_pos = 0;
+		o_armed = 0;
 		if (hc_is("case", 1)) {
 			printf("case %s", hc_tok[1]);
 		} else if (hc_is("pub", 2)) {
@@ -92,6 +124,36 @@ main(void)
 				hc_puthex(pub, CRYPTO_DH_PUBLEN);
 				printf(" | ok ");
 				hc_puthex(pub, CRYPTO_DH_PUBLEN);
+			}
+		} else if (hc_is("pubf", 3) || hc_is("computef", 4)) {
+			/* pubf <k> <priv> <blind> | computef <k> <pub> <priv> <blind>: the k-th OpenSSL allocation of this call fails.
+			 * Allowed answers: the documented failure (-1), or the right value.  (monitor mode) */
+			int iscomp = hc_tok[0][0] == 'c';
+			int rc;
+
+			o_failat = atol(hc_tok[1]); o_count = 0;
+			if (iscomp) {
+				a = hc_unhex(hc_tok[2], &alen);
+				b = hc_unhex(hc_tok[3], &blen);
+				ent_push(hc_tok[4]);
+				o_armed = 1;
+				rc = (alen != CRYPTO_DH_PUBLEN || blen != CRYPTO_DH_PRIVLEN) ? -1 : crypto_dh_compute(a, b, key);
+				o_armed = 0;
+				free(b);
+			} else {
+				a = hc_unhex(hc_tok[2], &alen);
+				ent_push(hc_tok[3]);
+				o_armed = 1;
+				rc = (alen != CRYPTO_DH_PRIVLEN) ? -1 : crypto_dh_generate_pub(key, a);
+				o_armed = 0;
+			}
+			free(a);
+			if (rc)
+				printf("fail | allocs=%ld", o_count);
+			else {
+				printf("ok ");
+				hc_puthex(key, CRYPTO_DH_KEYLEN);
+				printf(" | allocs=%ld", o_count);
 			}
 		} else if (hc_is("sanity", 1)) {
 			int rc;
